@@ -29,22 +29,24 @@ def build(key, variant, i):
     env = dict(b, children_are=children_are, is_hook=callable, same=lambda a, c: a == c,
                pssh_all_for_default_kid=lambda xs: all(not isinstance(it, NS) or it.for_kid == 'default_kid' for it in xs))
     if qual == 'MediaRequestBase.generate_init_segment':
+        class Mvex:
+            def __delattr__(self, name):
+                if name == 'mehd' and b['has_mehd']:
+                    moov.__dict__['mehd_removed'] = True
+                    return
+                raise AttributeError(name)
+
         class Moov:
             def __init__(self):
                 self.children = ['mvhd', 'mvex', 'trak']
                 self.mehd_removed = False
-                self._has_mehd = b['has_mehd']
+                self.mvex = Mvex()
 
             def append_child(self, box):
                 self.children.append(box)
 
             def __delattr__(self, name):
-                if name == 'mehd':
-                    if not self._has_mehd:
-                        raise AttributeError(name)
-                    self.__dict__['mehd_removed'] = True
-                    return
-                object.__delattr__(self, name)
+                raise AttributeError(name)           # mehd is never a direct child of moov
         moov = Moov()
         atom = NS(moov=moov, encode=lambda: NS(children=list(moov.children), mehd_removed=moov.mehd_removed))
 
